@@ -71,6 +71,7 @@ def gen_leaf(eng, tag, kinds, sh=None):
 
 LEAF_KINDS = ['none', 'bool', 'int', 'float', 'special', 'str']
 KEY_KINDS = ['str', 'int', 'bool', 'none', 'float']
+CONCRETE_KEYS = [0, 1, -1, 2 ** 53 + 1, True, False, 0.0, 1.0, -0.0, 0.5, float('inf'), 'true', '1', '1.0', 'null']
 
 
 def gen_key(eng, tag, sh):
@@ -84,6 +85,10 @@ def gen_key(eng, tag, sh):
         return eng.fresh_bool('kb' + tag)
     if k == 'none':
         return None
+    if k == 'concrete':
+        # a plain Python key from the classes that collide in hash()/== (True == 1 == 1.0, False == 0 == -0.0) or sit next
+        # to a JSON keyword: exact Python semantics, also against lookup tables the library may hold
+        return CONCRETE_KEYS[eng.choose('kc' + tag, len(CONCRETE_KEYS))]
     if k == 'float':
         if sh.specials and eng.choose('kfs' + tag, 2):
             return eng.special_float(sh.specials[eng.choose('kf' + tag, len(sh.specials))])
